@@ -244,6 +244,31 @@ class NcchCheck(Check):
                     rd2 = NCCHReader(b2, crypto=e.CryptoEngine(), seed=seed_arg, assume_decrypted=assume, closefd=False, load_sections=False)
                     order = list(todo)
                     Rng(case['seed'] + 9).shuffle(order)
+                    # ... and the views are the CALLER's: each is read in two halves with whole reads of the FullDecrypted view (which
+                    # goes through the reader's own section files) in between, then closed - after which the FullDecrypted view must
+                    # still work.  A view that is really the reader's own file object fails one way or the other
+                    if not desc['no_crypto'] and case['seed'] % 2 == 1:
+                        spec_full = ncchbuild.decrypted_image(img, info, desc)
+                        views = [(name, rd2.open_raw_section(NCCHSection(num))) for name, num in order if name != 'full']
+                        halves = {}
+                        for name, v in views:
+                            halves[name] = v.read(len(info['plain'][name]) // 2 + 1)
+                        mid = rd2.open_raw_section(NCCHSection.FullDecrypted).read()
+                        for name, v in views:
+                            got2 = halves[name] + v.read()
+                            if got2 != info['plain'][name] and not mon:
+                                mon.append(f'load_sections=False: the {name} view read in two halves around a FullDecrypted read differs '
+                                           f'from the plaintext')
+                                key = f'ncch.{name}.lazy'
+                            v.close()
+                        try:
+                            again = rd2.open_raw_section(NCCHSection.FullDecrypted).read()
+                        except Exception as ex_:  # noqa
+                            again = 'e:' + exc_name(ex_)
+                        if (mid != spec_full or again != spec_full) and not mon and not assume:
+                            mon.append(f'load_sections=False: the FullDecrypted view differs from the decrypted image '
+                                       f'({"after the section views were closed: " + str(again)[:40] if mid == spec_full else "between the halves"})')
+                            key = 'ncch.full.lazy'
                     for name, num in order:
                         plain = ncchbuild.decrypted_image(img, info, desc) if name == 'full' else info['plain'][name]
                         if name == 'full' and desc['no_crypto']:
